@@ -349,6 +349,12 @@ class _Marshaller:
     # FIXME: will probably have to adjust similar to how we
     # adjusted dump_code2
     def dump_code3(self, x):
+        if hasattr(x, "co_exceptiontable") and hasattr(x, "co_qualname"):
+            # 3.11 changed the marshalled layout (qualname, localsplusnames and
+            # their kinds, exception table); what follows writes the 3.8-3.10 one.
+            raise TypeError(
+                "marshalling a Python 3.11+ code object is not supported"
+            )
         self._write(TYPE_CODE)
         self.w_long(x.co_argcount)
         if hasattr(x, "co_posonlyargcount"):
